@@ -17,6 +17,9 @@ package generic
 //@   ensures {C13} pure: forall k string :: has($srv.store[dbof(params.Context)], k) ==> old(has($srv.store[dbof(params.Context)], k)) && $srv.store[dbof(params.Context)][k] == old($srv.store[dbof(params.Context)][k])
 //@   ensures {C13,C04} onlyexpired: forall k string :: old(has($srv.store[dbof(params.Context)], k)) && !has($srv.store[dbof(params.Context)], k) ==> old(sugardb.expired($srv.store[dbof(params.Context)][k], $now))
 //@   ensures {C20} otherdbs: forall d int :: d != dbof(params.Context) ==> $srv.store[d] == old($srv.store[d])
+//@   ensures {C01,C04} missing: len(params.Command) == 2 && !old(sugardb.livekey($srv, dbof(params.Context), params.Command[1], $now)) ==> result1 == nil && bstr(result0) == "$-1\r\n"
+//@   ensures {C01} string: len(params.Command) == 2 && old(sugardb.livekey($srv, dbof(params.Context), params.Command[1], $now)) && old(isstr($srv.store[dbof(params.Context)][params.Command[1]].Value)) ==> result1 == nil && bstr(result0) == "+" ++ (old(asstr($srv.store[dbof(params.Context)][params.Command[1]].Value)) ++ "\r\n")
+//@   ensures {C01} integer: len(params.Command) == 2 && old(sugardb.livekey($srv, dbof(params.Context), params.Command[1], $now)) && old(isint($srv.store[dbof(params.Context)][params.Command[1]].Value)) ==> result1 == nil && bstr(result0) == "+" ++ (itoa(old(asint($srv.store[dbof(params.Context)][params.Command[1]].Value))) ++ "\r\n")
 
 // ---- TTL / PTTL: remaining life of a key in seconds / milliseconds; -2 for a missing key, -1 for a key without deadline.
 //@ spec gkey(params internal.HandlerFuncParams) string = old(params.Command[1])
@@ -90,3 +93,23 @@ package generic
 //@   ensures {C04} refused: len(params.Command) == 4 && atoiok(garg(params, 2)) && old(glive(params, gkey(params))) && gknownopt(garg(params, 3)) && !gapplies(garg(params, 3), gcur(params), gexpireat_new(params)) ==> result1 == nil && bstr(result0) == ":0\r\n" && gdeadline(params, gkey(params)) == gcur(params)
 //@   ensures {C04,C01} value: (has($srv.store[dbof(params.Context)], gkey(params)) <==> old(has($srv.store[dbof(params.Context)], gkey(params)))) && $srv.store[dbof(params.Context)][gkey(params)].Value == old($srv.store[dbof(params.Context)][gkey(params)].Value)
 //@   ensures {C04,C20} others: gothers(params)
+
+// ---- PERSIST key: removes the deadline of a live key that has one.
+//@ func handlePersist props C04,C12
+//@   requires henv(params)
+//@   assumes own-cmd: len(params.Command) >= 2 ==> disjointarr(params.Command, $srv.keysWithExpiry.keys[dbof(params.Context)])
+//@   ensures {C04} arity: len(params.Command) != 2 ==> result1 != nil
+//@   ensures {C04} nothing: len(params.Command) == 2 && (!old(glive(params, gkey(params))) || gcur(params) == zerotime) ==> result1 == nil && bstr(result0) == ":0\r\n" && gpure(params)
+//@   ensures {C04} persisted: len(params.Command) == 2 && old(glive(params, gkey(params))) && gcur(params) != zerotime ==> result1 == nil && bstr(result0) == ":1\r\n" && gdeadline(params, gkey(params)) == zerotime && glive(params, gkey(params))
+//@   ensures {C04,C01} value: (has($srv.store[dbof(params.Context)], gkey(params)) <==> old(has($srv.store[dbof(params.Context)], gkey(params)))) && $srv.store[dbof(params.Context)][gkey(params)].Value == old($srv.store[dbof(params.Context)][gkey(params)].Value)
+//@   ensures {C04,C20} others: gothers(params)
+
+// ---- EXPIRETIME / PEXPIRETIME key: the deadline as a Unix time in seconds / milliseconds; -2 missing, -1 no deadline.
+//@ func handleExpireTime props C04,C12,C13
+//@   requires henv(params)
+//@   assumes own-cmd: len(params.Command) >= 2 ==> disjointarr(params.Command, $srv.keysWithExpiry.keys[dbof(params.Context)])
+//@   ensures {C04} arity: len(params.Command) != 2 ==> result1 != nil
+//@   ensures {C04} missing: len(params.Command) == 2 && !old(glive(params, gkey(params))) ==> result1 == nil && bstr(result0) == ":-2\r\n"
+//@   ensures {C04} persistent: len(params.Command) == 2 && old(glive(params, gkey(params))) && gcur(params) == zerotime ==> result1 == nil && bstr(result0) == ":-1\r\n"
+//@   ensures {C04} deadline: len(params.Command) == 2 && old(glive(params, gkey(params))) && gcur(params) != zerotime ==> result1 == nil && bstr(result0) == ":" ++ (itoa(lower(garg(params, 0)) == "pexpiretime" ? unixmilli(gcur(params)) : unixsec(gcur(params))) ++ "\r\n")
+//@   ensures {C13,C04} pure: gpure(params)
